@@ -573,14 +573,18 @@ class Dict(dict, base.Symbolic, pg_typing.CustomTyping):
       old_value.sym_setparent(None)
       old_value.sym_setpath(utils.KeyPath())
 
+    return base.FieldUpdate(
+        self.sym_path + key, self._update_target(), field,
+        old_value, new_value)
+
+  def _update_target(self) -> base.Symbolic:
+    """Returns the target of field updates made on this dict."""
     # NOTE(daiyip): If current dict is the field dict of a symbolic object,
     # Use parent object as update target.
-    target = self
     if (self.sym_parent is not None
         and self.sym_parent.sym_path == self.sym_path):
-      target = self.sym_parent
-    return base.FieldUpdate(
-        self.sym_path + key, target, field, old_value, new_value)
+      return self.sym_parent
+    return self
 
   def _formalized_value(
       self, name: Union[str, int],
@@ -784,6 +788,12 @@ class Dict(dict, base.Symbolic, pg_typing.CustomTyping):
     if isinstance(value, base.TopologyAware):
       value.sym_setparent(None)
       value.sym_setpath(utils.KeyPath())
+    if flags.is_change_notification_enabled():
+      self._notify_field_updates([
+          base.FieldUpdate(
+              self.sym_path + key, self._update_target(), None,
+              value, pg_typing.MISSING_VALUE)
+      ])
     return key, value
 
   def clear(self) -> None:
@@ -792,14 +802,23 @@ class Dict(dict, base.Symbolic, pg_typing.CustomTyping):
       raise base.WritePermissionError('Cannot clear a sealed Dict.')
     value_spec = self._value_spec
     self._value_spec = None
-    for value in dict.values(self):
+    updates = []
+    for key, value in dict.items(self):
       if isinstance(value, base.TopologyAware):
         value.sym_setparent(None)
         value.sym_setpath(utils.KeyPath())
+      updates.append(
+          base.FieldUpdate(
+              self.sym_path + key, self._update_target(),
+              value_spec.schema.get_field(key)
+              if value_spec and value_spec.schema else None,
+              value, pg_typing.MISSING_VALUE))
     super().clear()
 
     if value_spec:
       self.use_value_spec(value_spec, self._allow_partial)
+    if updates and flags.is_change_notification_enabled():
+      self._notify_field_updates(updates)
 
   def setdefault(self, key: Union[str, int], default: Any = None) -> Any:
     """Sets default as the value to key if not present."""
